@@ -44,7 +44,7 @@ Definition valid_keys : list string :=
   end.
 
 (* DefaultSettings() as created at import time *)
-Definition defaults0 : tree * option err := defaults_new colors defaults_schema DEFAULTS.
+Definition defaults0 : tree * option err := defaults_new colors reset_mode defaults_schema DEFAULTS.
 
 (* ---------------------------------------------------------------- update on a sub-object: x.a.b.update(arg) *)
 Fixpoint update_at (s : schema) (st : tree) (sub : path) (arg : dict) : tree * option err :=
@@ -100,7 +100,7 @@ Definition step (cls : string) (w : world) (o : op) : world * obs :=
       let '(t, e) := update colors s (w_obj w) arg true false in
       (mkW (w_def w) t, mkObs e (as_dict s t) None)
   | OReset =>
-      let '(t, e) := reset colors defaults_schema (w_def w) DEFAULTS in
+      let '(t, e) := reset colors reset_mode defaults_schema (w_def w) DEFAULTS in
       (mkW t (w_obj w), mkObs e (as_dict s (w_obj w)) (Some (as_dict defaults_schema t)))
   | OResolve kw =>
       let '(t, e) := get_style colors s (class_families cls) dstyle_schema (def_style_state (w_def w))
